@@ -65,7 +65,7 @@ Build(F0, nms, v) ==
       root(i) == Len(F1[i].path) = 1
       \* qualified references `[ns.Name]`: in files of the main directory, naming the file
       \* itself or a file it imports, of the main directory
-      qs(i) == IF ~root(i) THEN <<>>
+      qs(i) == IF ~root(i) \/ v.kind = "noq" THEN <<>>
                ELSE Flat([k \in 1..Len(d.order) |->
                       LET j == d.order[k] IN
                       IF ~root(j) \/ ~(j = i \/ j \in Range(ImpT(F1, i))) THEN <<>>
@@ -101,8 +101,14 @@ QVariants(F0, nms) ==
                                      /\ \A q2 \in 1..(q - 1) : nms[q2] \notin Rules(F1)[v.target]
           /\ (v.form = "obj" => Len(F1[v.target].path) > 1)}
 
+\* on cyclic graphs also the case without any qualified reference (so that a load which only
+\* differs in unqualified links is seen as such)
+NoQVariants(F0, nms) ==
+  IF Cyclic(Build(F0, nms, NoVariant)) THEN {[kind |-> "noq", file |-> 0, name |-> "-", form |-> "-", target |-> 0]} ELSE {}
+
 Variants(F0, nms) ==
-  {NoVariant} \cup (IF IOEnv.VT_VARIANTS = "1" THEN NegVariants(F0, nms) \cup QVariants(F0, nms) ELSE {})
+  {NoVariant} \cup (IF IOEnv.VT_VARIANTS = "1"
+                    THEN NegVariants(F0, nms) \cup QVariants(F0, nms) \cup NoQVariants(F0, nms) ELSE {})
 
 \* ---- source 1: enumeration
 AllReachable(F) == Reach(F) = 1..Len(F)
